@@ -23,7 +23,8 @@ dec! {
 	c03q_nz_u8: NonZeroU8, 2, 4; c03q_nz_u16: NonZeroU16, 3, 5; c03q_nz_u32: NonZeroU32, 5, 7; c03q_nz_u64: NonZeroU64, 9, 11; c03q_nz_u128: NonZeroU128, 17, 19;
 	c03q_nz_i8: NonZeroI8, 2, 4; c03q_nz_i16: NonZeroI16, 3, 5; c03q_nz_i32: NonZeroI32, 5, 7; c03q_nz_i64: NonZeroI64, 9, 11; c03q_nz_i128: NonZeroI128, 17, 19;
 	c03q_opt_u32: Option<u32>, 6, 8; c03q_opt_opt_bool: Option<Option<bool>>, 4, 6; c03q_res_u8_u16: Result<u8, u16>, 4, 6;
-	c03q_res_opt_compact: Result<Option<u16>, Compact<u32>>, 7, 19; c03q_opt_nz: Option<NonZeroU16>, 4, 6;
+	c03q_res_opt_compact: Result<Option<u16>, Compact<u32>>, 7, 19; c03q_compact_u64: Compact<u64>, 10, 19; c03q_arr_nz_u8_3: [NonZeroU8; 3], 4, 6; c03q_arr_nz_u32_2: [NonZeroU32; 2], 9, 11;
+	c03q_arr_optionbool_2: [OptionBool; 2], 3, 5; c03q_opt_nz: Option<NonZeroU16>, 4, 6;
 	c03q_tup1: (u16,), 3, 5; c03q_tup2: (u8, bool), 3, 5; c03q_tup3: (u8, Compact<u16>, bool), 7, 19; c03q_tup_optbool: (OptionBool, Option<bool>), 4, 6;
 	c03q_tup18: (u8, u8, u8, u8, u8, u8, u8, u8, u8, u8, u8, u8, u8, u8, u8, u8, u8, bool), 19, 21;
 	c03q_range: Range<u16>, 5, 7; c03q_range_incl: RangeInclusive<u16>, 5, 7;
@@ -31,6 +32,7 @@ dec! {
 	c03q_arr_opt_3: [Option<u8>; 3], 7, 9; c03q_arr_arr: [[u8; 2]; 2], 5, 7; c03q_arr_arr_bool: [[bool; 2]; 2], 5, 7;
 	c03q_box_u32: Box<u32>, 5, 7; c03q_rc_u32: Rc<u32>, 5, 7; c03q_arc_u32: Arc<u32>, 5, 7; c03q_box_opt: Box<Option<bool>>, 3, 5;
 	c03q_box_arr: Box<[bool; 2]>, 3, 5; c03q_opt_box: Option<Box<bool>>, 3, 5;
+	c03t_compact_u128: Compact<u128>, 18, 19; c03t_arr_nz_i64_1: [NonZeroI64; 1], 9, 11;
 	c03t_arr_i128_1: [i128; 1], 17, 19; c03t_arr_f64_2: [f64; 2], 17, 19; c03t_arr_i16_3: [i16; 3], 7, 9; c03t_arr_box: [Box<bool>; 2], 3, 5;
 	c03t_res_res: Result<Result<bool, u8>, Option<u8>>, 4, 6; c03t_tup4: (bool, u16, Option<u8>, OptionBool), 7, 9;
 	c03t_arc_arr: Arc<[Option<bool>; 2]>, 5, 7; c03t_duration_opt: Option<Duration>, 14, 16;
@@ -49,6 +51,7 @@ cnt! {
 	c03q_vec_u16_2: Vec<u16>, 2, 5, 8, true, true, 8; c03q_vec_u32_2: Vec<u32>, 2, 9, 12, true, true, 12; c03q_vec_i64_1: Vec<i64>, 1, 9, 12, true, true, 12;
 	c03q_vec_f32_1: Vec<f32>, 1, 5, 8, true, true, 8; c03q_vec_u128_1: Vec<u128>, 1, 17, 20, true, true, 20;
 	c03q_vec_bool_2: Vec<bool>, 2, 3, 8, true, true, 6; c03q_vec_opt_2: Vec<Option<u8>>, 2, 5, 8, true, true, 8; c03q_vec_tup_2: Vec<(u8, bool)>, 2, 5, 8, true, true, 8;
+	c03q_vec_nz_u16_2: Vec<NonZeroU16>, 2, 5, 8, true, true, 8; c03q_vec_nz_u8_3: Vec<NonZeroU8>, 3, 4, 8, true, true, 7; c03q_deque_nz_u32_1: VecDeque<NonZeroU32>, 1, 5, 8, true, true, 8;
 	c03q_vec_unit_3: Vec<()>, 3, 1, 4, true, true, 6; c03q_vec_optbool_2: Vec<OptionBool>, 2, 3, 8, true, true, 6;
 	c03q_deque_u16_2: VecDeque<u16>, 2, 5, 8, true, true, 8; c03q_deque_bool_2: VecDeque<bool>, 2, 3, 8, true, true, 6;
 	c03q_list_u8_2: LinkedList<u8>, 2, 3, 8, true, true, 6; c03q_list_bool_1: LinkedList<bool>, 1, 2, 8, true, true, 6;
@@ -117,16 +120,9 @@ cnt_unk! {
 	c03q_unk_vec_u8_3: Vec<u8>, 3, 4, 7; c03q_unk_vec_opt_2: Vec<Option<u8>>, 2, 5, 8; c03q_unk_vec_u16_2: Vec<u16>, 2, 5, 8;
 }
 
-/// nested sequence, counts inside the payload are symbolic (rule R1 corollary): tiny lengths only
-#[kani::proof]
-#[kani::unwind(8)]
-pub fn c03t_vec_vec_u8_c2() { h_dec_cnt::<Vec<Vec<u8>>, 4, 8>(2, true, true) }
-#[kani::proof]
-#[kani::unwind(8)]
-pub fn c03t_vec_vec_u8_c1() { h_dec_cnt::<Vec<Vec<u8>>, 3, 8>(1, true, true) }
-#[kani::proof]
-#[kani::unwind(8)]
-pub fn c03t_vec_string_c1() { h_dec_cnt::<Vec<String>, 3, 8>(1, false, true) }
+// nested element-path sequences (`Vec<Vec<u8>>`, `Vec<String>`): the inner counts are payload, hence symbolic; tried at 3-4
+// payload bytes: CBMC runs out of memory (12 GB) -- outside the bound (rule R1 corollary). C09 covers the hostile-inner-count
+// rejection path, C01/C02 the honest values.
 
 /// symbolic count prefix on the bulk path (tolerated there): ALL strings <= L bytes as Vec<u8>/Vec<u16>.
 /// Oracle written without building a model vector: count = model compact prefix; accept iff
